@@ -301,6 +301,15 @@ func c13Strings() []string {
 	for _, s := range []string{"", " ", "0", "-0", " 12 ", "1e3", ".5", "0x10", "Infinity", "-Infinity", "NaN", "abc", "1 2", "1e999", "  7\ufeff", "0x", "1_0", "inf"} {
 		out = append(out, h.BytesTok(s))
 	}
+	// white space around a numeral: every StrWhiteSpaceChar of ES5 9.3.1, and the code points on which Go's
+	// unicode.IsSpace / strings.TrimSpace disagree with it (U+0085 is Go-space only; U+FEFF, U+180E are ES5 only),
+	// plus near misses that are not white space (U+200B, U+001C, U+2060)
+	for _, ws := range []rune{0x9, 0xA, 0xB, 0xC, 0xD, 0x20, 0x85, 0xA0, 0x1680, 0x180E, 0x2000, 0x200A, 0x2028, 0x2029, 0x202F, 0x205F, 0x3000, 0xFEFF, 0x200B, 0x1C, 0x2060} {
+		w := string(ws)
+		for _, t := range []string{w, w + "1", "1" + w, w + "1" + w, w + w + "-2.5e1" + w, "1" + w + "2", w + "0x1F", w + "Infinity" + w} {
+			out = append(out, h.BytesTok(t))
+		}
+	}
 	out = append(out, "i32:-1", "i64:9007199254740993", "u8:255", "int:0", "u64:18446744073709551615", "i8:-128")
 	return out
 }
